@@ -541,7 +541,8 @@ def _render_decls(decls, here, mod, sub, extra=""):
             if f["emb"]:
                 lines.append("\t%s%s" % (go_type(f["ty"], here, QUALS), tag))
             else:
-                lines.append("\t%s %s%s" % (f["name"], go_type(f["ty"], here, QUALS), tag))
+                dc = directive_comment(f) if d.get("shootnew") else ""
+                lines.append("%s\t%s %s%s" % (dc, f["name"], go_type(f["ty"], here, QUALS), tag))
         lines.append("}\n")
         body.append("\n".join(lines))
     return used, "\n".join(body) + extra
@@ -1141,3 +1142,68 @@ def corpus():
                   _f("Tx", N("dst", "Text")), _f("Alpha", B("string"))])],
         [_job("T", "T")]))
     return res
+
+
+# ------------------------------------------------------------------------------ C15: shoot-new rendering
+def unexport(name):
+    """the unexported spelling of a field name whose accessor name smart-matches the original"""
+    return to_camel_go(name)
+
+
+def to_shootnew(rng, spec, side, tname, p_unexport=0.75, allow_setonly=False):
+    """render struct <tname> of package <side> ('src'|'dst') as a `shoot new -getset` type: most plain fields
+    become unexported with a //shoot: directive (none = get+set, get, set), optionally a `new`-restricted
+    constructor.  Embedded fields are removed (C15 covers flat shoot-new types)."""
+    d = struct_decl(spec, side, tname)
+    flat = []
+    for f in d["fields"]:
+        if f["emb"] and not (f["ty"][0] == "named" and f["ty"][2] == "Mapper"):
+            continue
+        flat.append(f)
+    d["fields"] = flat
+    restrict = rng.random() < 0.4
+    any_new = False
+    for f in flat:
+        if f["emb"]:
+            continue
+        if f["tag"] == "-":
+            f["tag"] = ""          # map:"-" on a shoot-new type is the open finding K_map_dash_accessor
+        f["orig"] = f["name"]
+        if rng.random() < p_unexport:
+            f["name"] = unexport(f["name"])
+            r = rng.random()
+            if r < 0.55:
+                f["acc"] = "both"
+            elif r < 0.8 or not allow_setonly:
+                f["acc"] = "get"
+            else:
+                f["acc"] = "set"
+        else:
+            f["acc"] = None           # stays exported
+        f["new"] = restrict and rng.random() < 0.5
+        any_new = any_new or f["new"]
+    d["shootnew"] = {"restrict": restrict and any_new}
+    feats = set(spec.get("features", []))
+    feats.add("shootnew:" + side)
+    if d["shootnew"]["restrict"]:
+        feats.add("ctor:restricted")
+    for f in flat:
+        if f.get("acc"):
+            feats.add("acc:" + f["acc"])
+    spec["features"] = sorted(feats)
+    # manual methods refer to fields by name: drop them on a converted type
+    for j in spec["jobs"]:
+        if (side == "src" and j["src"] == tname) or (side == "dst" and j["dst"] == tname):
+            j["manual_to"] = None
+            j["manual_from"] = None
+
+
+def directive_comment(f):
+    words = []
+    if f.get("new"):
+        words.append("new")
+    if f.get("acc") == "get":
+        words.append("get")
+    elif f.get("acc") == "set":
+        words.append("set")
+    return ("\t//shoot: " + ";".join(words) + "\n") if words else ""
